@@ -61,19 +61,35 @@ def _or(a, b):
     return out
 
 
+def _aff(x):
+    """(set of source bits, constant) of a bit that is an XOR of source bits, or None."""
+    if x in (0, 1):
+        return frozenset(), x
+    if isinstance(x, tuple) and x[0] == "s":
+        return frozenset([(x[1], x[2])]), 0
+    if isinstance(x, tuple) and x[0] == "x":
+        return x[1], x[2]
+    return None
+
+
+def _mk(srcs, c):
+    if not srcs:
+        return c
+    if len(srcs) == 1 and c == 0:
+        (k, i), = srcs
+        return ("s", k, i)
+    return ("x", frozenset(srcs), c)
+
+
 def _xor(a, b):
+    """Exact on bits that are XOR combinations of source bits (affine over GF(2))."""
     out = []
     for x, y in zip(a, b):
-        if x == 0:
-            out.append(y)
-        elif y == 0:
-            out.append(x)
-        elif x in (0, 1) and y in (0, 1):
-            out.append(x ^ y)
-        elif x == y and x != TOP:
-            out.append(0)
-        else:
+        ax, ay = _aff(x), _aff(y)
+        if ax is None or ay is None:
             out.append(TOP)
+        else:
+            out.append(_mk(ax[0] ^ ay[0], ax[1] ^ ay[1]))
     return out
 
 
@@ -163,7 +179,7 @@ def ev(e, leaf, cond_truth=None):
         return [x if x == y else TOP for x, y in zip(a, b)]
     if k == "Un" and e["op"] == "~":
         a = ev(e["a"][0], leaf, cond_truth)
-        return conv([(1 - x) if x in (0, 1) else TOP for x in a], e.get("t"))
+        return conv([TOP if _aff(x) is None else _mk(_aff(x)[0], 1 - _aff(x)[1]) for x in a], e.get("t"))
     if k == "Un" and e["op"] == "+":
         return ev(e["a"][0], leaf, cond_truth)
     return top()
@@ -178,6 +194,12 @@ def show(bits, n=None):
             out.append(str(b))
         elif b == TOP:
             out.append("?")
+        elif b[0] == "x":
+            out.append("^".join(sorted("%s.%d" % kv for kv in b[1])) + ("^1" if b[2] else ""))
         else:
             out.append("%s.%d" % (b[1], b[2]))
     return " ".join(out)
+
+
+def showbit(b):
+    return show([b], 1)
